@@ -185,7 +185,10 @@ where
                         && buffered_req.is_none()
                         && buffered_rep.is_none() =>
                 {
-                    return Poll::Pending
+                    // Replies handed to the requestor sinks earlier may still be waiting for a
+                    // flush that returned Pending.
+                    ready!(sink.as_mut().poll_flush(cx)).unwrap();
+                    return Poll::Pending;
                 }
                 // Otherwise, move on with running the stream
                 Poll::Pending => (),
